@@ -5,7 +5,7 @@ PATCH="$(realpath "$1")"; PROP="$2"; TIER="${3:-quick}"
 WT="/tmp/mut-$$"
 git -C /repo worktree add --detach -q "$WT" HEAD
 trap 'git -C /repo worktree remove --force "$WT" >/dev/null 2>&1; rm -rf "$WT"' EXIT
-git -C "$WT" apply "$PATCH"
+git -C "$WT" apply "$PATCH" 2>/dev/null || git -C "$WT" apply -3 "$PATCH" || { echo "exit=patch-does-not-apply"; exit 3; }
 cd /verif
 set +e
 VERIF_REPO="$WT" ./vcheck "$PROP" --tier "$TIER" > "/verif/.work/mut-$PROP-$$.log" 2>&1
